@@ -276,3 +276,36 @@ def sim_replay(ctx, module, cfg, num, depth, overrides, replayer, label="s2c-sim
         {"module": module, "cfg": cfg, "label": label, "overrides": canon(overrides or {}), "walks": n,
          "steps_replayed": steps, "depth": depth, "tlc_wall_s": round(r.wall_s, 2)}]
     return n
+
+
+# ---------------------------------------------------------------------------------------
+# binding self-test: a corrupted observation and a dropped event must be rejected by the trace
+# specification, a corrupted expected value must be reported by the replayer (non-vacuity of both
+# directions; a failure here is a machinery failure, never a verdict)
+
+def binding_selftest(ctx, module, cfg, overrides, trace, corrupt_obs, replayer, spec_dir="sync"):
+    """trace: a short recorded run ({id, cfg, ev}) of the unchanged real object that the spec accepts.
+    corrupt_obs(obs) -> a different, wrong observation."""
+    import copy
+    from . import framework
+    spec_dir = os.path.join(VERIF, "specs", spec_dir)
+    cfgp = make_cfg(os.path.join(spec_dir, cfg), overrides or {}, ctx.scratch, "%s_selftest_%s" % (module, os.path.basename(cfg)))
+    k = len(trace["ev"]) // 2
+    good = dict(trace, id=1)
+    bad_obs = copy.deepcopy(dict(trace, id=2))
+    bad_obs["ev"][k]["obs"] = corrupt_obs(bad_obs["ev"][k]["obs"])
+    dropped = copy.deepcopy(dict(trace, id=3))
+    del dropped["ev"][0]
+    accepted, _inv = framework._validate_shards(spec_dir, module, cfgp, [good, bad_obs, dropped], 1, ctx.scratch,
+                                                ctx.pick(900, 3000), verbose=False)
+    if accepted != {1}:
+        raise Machinery("binding self-test of %s: accepted %s, expected only the uncorrupted trace" % (module, sorted(accepted)))
+    extra = {"cfg": trace["cfg"]}
+    path = [{"act": e["a"], "args": e["args"], "exp": canon(e["obs"])} for e in trace["ev"]]
+    if replayer(extra, path) is not None:
+        raise Machinery("binding self-test of %s: the replayer diverges on its own recording" % module)
+    path[k] = dict(path[k], exp=canon(corrupt_obs(copy.deepcopy(path[k]["exp"]))))
+    d = replayer(extra, path)
+    if d is None or d.get("step") != k:
+        raise Machinery("binding self-test of %s: corrupted expected value at step %d not reported (%r)" % (module, k, d))
+    ctx.cov["binding_selftest"] = "ok: corrupted observation and dropped event rejected by %s; corrupted expectation reported by the replayer" % module
